@@ -15,8 +15,9 @@ THEOREMS = [
     "C08_is_derivative",
     "C08_unvisited_component_irrelevant",
     "C08_scalar_offset_is_constant_array",
+    "C08_component_order_irrelevant",
 ]
-CORR_OPS = ["linear_scoring:scores"]
+CORR_OPS = ["linear_scoring:scores", "linear_scoring:relabel"]
 RULE = ("1-4 models (as machines / 3-D array / single 2-D array) x 1-4 test statistics (incl. zero-frame ones, single statistic not in a "
         "list) x offsets (scalar 0, shared (C,D), per-test) x normalisation on/off x UBM given as ML or MAP machine; distinct = hash of "
         "inputs; non-trivial = >= 2 components and a non-zero model offset")
@@ -146,6 +147,15 @@ def correspondence(ctx):
                  sample={"C": sc["C"], "D": sc["D"], "models": len(sc["models"]), "models_kind": sc["models_kind"], "tests": [t["t"] for t in sc["tests"]], "norm": sc["norm"], "scores_model": model})
         if isinstance(res, core.ImplError) or res.shape != model.shape or not core.close(model, res, 1e-8, 1e-12 * (1 + scale_of(sc))):
             bad.append({"op": "linear_scoring:scores", "input": sc, "model": model, "impl": repr(res) if isinstance(res, core.ImplError) else res})
+        elif sc["C"] >= 2:
+            # C08_component_order_irrelevant on the code: UBM, models, statistics and offsets with the components in reverse order
+            rv = lambda a: np.asarray(a)[::-1].copy()
+            off2 = sc["off"] if sc["off_kind"] == "scalar" else rv(sc["off"]) if sc["off_kind"] == "shared" else np.asarray(sc["off"])[:, ::-1].copy()
+            sc2 = dict(sc, w=rv(sc["w"]), m=rv(sc["m"]), v=rv(sc["v"]), models=[rv(x) for x in sc["models"]], off=off2,
+                       tests=[dict(t, n=rv(t["n"]), px=rv(t["px"])) for t in sc["tests"]])
+            res2 = call_impl(sc2)
+            if isinstance(res2, core.ImplError) or res2.shape != res.shape or not core.close(res, res2, 1e-8, 1e-12 * (1 + scale_of(sc))):
+                bad.append({"op": "linear_scoring:relabel", "input": sc, "impl": res, "impl_reversed": repr(res2) if isinstance(res2, core.ImplError) else res2})
     return bad
 
 
